@@ -54,6 +54,9 @@ func (tf *truncateTransform) Transform(record *base.LogRecord) base.FilterResult
 	value := tf.keyLocator.Get(record.Fields)
 	if len(value) > tf.maxLength+len(tf.suffix) {
 		valueB := util.BytesFromString(value)
+		// work on an own copy: the bytes may be shared with other fields (addFields $var, extract captures) or with
+		// configuration strings (addFields constants, mapValue results)
+		valueB = append([]byte(nil), valueB[:tf.maxLength+len(tf.suffix)]...)
 
 		// truncate and clean up before the maxLength in case of UTF-8 sequences cut in the middle
 		valueTrimmed := util.CleanUTF8(valueB[:tf.maxLength])
